@@ -1,7 +1,674 @@
-//! C14 — not built yet
-use crate::vcore::Tier;
+//! C14 — loading a well-formed SNA/SZX/SCR file yields exactly the described state.
+//! E-PROD over (abstract machine state x encoding of that state x receiving state x model pairing):
+//! absolute oracle from the abstract state the writers encoded, differential oracle between
+//! encodings of the same state.
 
-pub fn run(_tier: Tier, _seed: u64, _replay: Option<String>) -> i32 {
-    eprintln!("MACHINERY: check C14 is not built yet");
-    2
+use crate::checks::c13::{all_ram, machine, OUTCODE};
+use crate::formats::*;
+use crate::rig::{self, Emu, Opts, RegsView, VAsset};
+use crate::vcore::{fnv, fnv_mix, par_for, Ctx, Tier};
+use rustzx_core::host::{Screen, Snapshot};
+use serde_json::json;
+use std::time::Duration;
+
+const IDLE: u16 = 0x9000;
+
+#[derive(Clone, Copy, Debug, PartialEq, Eq)]
+pub enum Enc {
+    Sna,
+    Szx { compressed: bool, order: u8, unknown: bool, minor: u8 },
+}
+
+#[derive(Clone, Copy, Debug, PartialEq, Eq)]
+pub enum Rx {
+    Fresh,
+    Halted,
+    MidPrefix,
+    Locked,
+    Other,
+    Running,
+}
+
+fn receiver(m128: bool, rx: Rx) -> Emu {
+    let mut e = machine(m128);
+    match rx {
+        Rx::Fresh => {}
+        Rx::Halted => {
+            rig::poke(&mut e, 0x8000, &[0x76]);
+            e.verif_cpu().regs.set_pc(0x8000);
+            rig::step(&mut e);
+            rig::step(&mut e);
+        }
+        Rx::MidPrefix => {
+            rig::poke(&mut e, 0x8000, &[0xFD, 0xFD, 0x00]);
+            e.verif_cpu().regs.set_pc(0x8000);
+            rig::step(&mut e);
+        }
+        Rx::Locked => {
+            if m128 {
+                rig::cpu_out(&mut e, OUTCODE, 0x7FFD, 0x2E);
+            }
+        }
+        Rx::Other => {
+            crate::checks::c13::fill_ram(&mut e, m128, 77);
+            if m128 {
+                rig::cpu_out(&mut e, OUTCODE, 0x7FFD, 0x1C);
+                // AY registers of the previous program
+                for r in 0..14u8 {
+                    rig::cpu_out(&mut e, OUTCODE, 0xFFFD, r);
+                    rig::cpu_out(&mut e, OUTCODE, 0xBFFD, 0xFF);
+                }
+            }
+            rig::cpu_out(&mut e, OUTCODE, 0x00FE, 6);
+            let mut r = RegsView::default();
+            r.af = 0xDEAD;
+            r.hl_ = 0xBEEF;
+            r.pc = 0x4321;
+            r.sp = 0x5000;
+            r.im = 2;
+            r.i = 0x99;
+            rig::set_regs(e.verif_cpu(), &r);
+        }
+        Rx::Running => {
+            // the ROM has been running for a few frames (interrupts enabled, mid-frame)
+            let mut o = Opts::machine(m128);
+            o.sound = false;
+            let mut x = rig::emu(&o);
+            for _ in 0..3 {
+                let _ = x.emulate_frames(Duration::from_secs(100));
+            }
+            x.set_debug_interface(rig::VDebug::always());
+            for _ in 0..1234 {
+                rig::step(&mut x);
+            }
+            return x;
+        }
+    }
+    e
+}
+
+fn encode(s: &MState, enc: Enc, halted: bool) -> Vec<u8> {
+    match enc {
+        Enc::Sna => {
+            if s.m128 {
+                sna128(s)
+            } else {
+                sna48(s)
+            }
+        }
+        Enc::Szx { compressed, order, unknown, minor } => szx(s, &SzxOpts { compressed, order, unknown_chunks: unknown, halted, minor, ..SzxOpts::default() }),
+    }
+}
+
+fn load(e: &mut Emu, enc: Enc, file: Vec<u8>) -> Result<Result<(), String>, String> {
+    let r = std::panic::catch_unwind(std::panic::AssertUnwindSafe(|| match enc {
+        Enc::Sna => e.load_snapshot(Snapshot::Sna(VAsset::new(file))),
+        Enc::Szx { .. } => e.load_snapshot(Snapshot::Szx(VAsset::new(file))),
+    }));
+    match r {
+        Ok(Ok(())) => Ok(Ok(())),
+        Ok(Err(err)) => Ok(Err(format!("{:?}", err))),
+        Err(p) => Err(p.downcast_ref::<String>().cloned().or_else(|| p.downcast_ref::<&str>().map(|s| s.to_string())).unwrap_or_else(|| "panic".into())),
+    }
+}
+
+fn enc_name(e: Enc) -> String {
+    match e {
+        Enc::Sna => "sna".into(),
+        Enc::Szx { compressed, order, unknown, minor } => format!("szx{}{}:order{}:v1.{}", if compressed { "-zlib" } else { "" }, if unknown { "+unknown-chunks" } else { "" }, order, minor),
+    }
+}
+
+fn enc_class(e: Enc) -> &'static str {
+    match e {
+        Enc::Sna => "sna",
+        Enc::Szx { .. } => "szx",
+    }
+}
+
+pub fn state(m128: bool, variant: usize) -> MState {
+    let mut s = MState::new(m128, (variant % 5) as u8 + 1);
+    let latches = [0x00u8, 0x0F, 0x13, 0x25, 0x3F, 0x08];
+    if m128 {
+        s.port7ffd = latches[variant % latches.len()];
+    }
+    s.regs.im = (variant % 3) as u8;
+    s.regs.iff1 = false;
+    s.regs.iff2 = false;
+    s.regs.pc = IDLE;
+    s.regs.sp = 0xBF00;
+    s.regs.i = [0x00u8, 0x3F, 0x80, 0xFF][variant % 4];
+    s.regs.r = [0xFFu8, 0x00, 0x7F, 0x80][variant % 4];
+    s.border = (variant % 8) as u8;
+    s.port_fe = s.border;
+    // idle loop in bank 2
+    s.banks[2][0x1000..0x1003].copy_from_slice(&[0xF3, 0x18, 0xFE]);
+    // a visible picture in both screens
+    for b in [5usize, 7] {
+        for a in 0..6144 {
+            s.banks[b][a] = ((a * 17 + variant + b) % 256) as u8;
+        }
+        for a in 6144..6912 {
+            s.banks[b][a] = ((a * 29 + 3 * variant + b) % 128) as u8;
+        }
+    }
+    s
+}
+
+fn json_case(m128: bool, variant: usize, enc: Enc, rx: Rx, what: &str) -> serde_json::Value {
+    json!({"kind":what,"m128":m128,"variant":variant,"encoding":enc_name(enc),"receiver":format!("{:?}", rx)})
+}
+
+fn expected_regs(s: &MState, enc: Enc) -> RegsView {
+    let mut r = s.regs.clone();
+    if enc == Enc::Sna {
+        r.iff1 = r.iff2;
+    }
+    r
+}
+
+fn ay_readback(e: &mut Emu) -> Vec<u8> {
+    (0..16u8)
+        .map(|r| {
+            rig::cpu_out(e, OUTCODE, 0xFFFD, r);
+            rig::cpu_in(e, OUTCODE, 0xFFFD)
+        })
+        .collect()
+}
+
+/// absolute oracle after a load
+fn check_absolute(ctx: &Ctx, m128: bool, variant: usize, s: &MState, enc: Enc, rx: Rx) -> Option<Emu> {
+    let mname = if m128 { "128k" } else { "48k" };
+    let case = json_case(m128, variant, enc, rx, "absolute");
+    let mut e = receiver(m128, rx);
+    match load(&mut e, enc, encode(s, enc, false)) {
+        Ok(Ok(())) => {}
+        Ok(Err(err)) => {
+            ctx.violation(&format!("C14:load-error:{}:{}", enc_class(enc), mname), &format!("well-formed {} for the matching model rejected: {}", enc_name(enc), err), case);
+            return None;
+        }
+        Err(p) => {
+            ctx.violation(&format!("C14:load-panic:{}:{}", enc_class(enc), mname), &format!("well-formed {} panicked: {}", enc_name(enc), p), case);
+            return None;
+        }
+    }
+    let got = rig::regs_view(e.verif_cpu());
+    let want = expected_regs(s, enc);
+    let mut d = crate::checks::c13::diff_regs(&want, &got);
+    if want.iff1 != got.iff1 {
+        d.push("IFF1");
+    }
+    if got.halted {
+        d.push("HALTED");
+    }
+    if got.prefix != 0 {
+        d.push("pending-prefix");
+    }
+    if got.skip_int != (s.eilast && enc != Enc::Sna) {
+        d.push("EI-latch");
+    }
+    if !d.is_empty() {
+        ctx.violation(
+            &format!("C14:registers:{}:{}:{}", enc_class(enc), mname, d.join("+")),
+            &format!("{} loaded into receiver {:?}: {:?} differ; file describes {:x?}, machine has {:x?}", enc_name(enc), rx, d, want, got),
+            case.clone(),
+        );
+    }
+    if got.halted || got.prefix != 0 {
+        // everything below drives the CPU; with a stale latch it would only produce follow-up noise
+        return None;
+    }
+    let b: u8 = e.border_color().into();
+    if b != s.border {
+        ctx.violation(&format!("C14:border:{}:{}", enc_class(enc), mname), &format!("{}: border {} loaded as {}", enc_name(enc), s.border, b), case.clone());
+    }
+    if m128 {
+        let p = e.verif_paging();
+        let want_lock = s.port7ffd & 0x20 != 0;
+        let want_screen = if s.port7ffd & 8 != 0 { 7 } else { 5 };
+        let want_map = [(false, (s.port7ffd >> 4) & 1), (true, 5), (true, 2), (true, s.port7ffd & 7)];
+        if p.0 != s.port7ffd || p.1 == want_lock || p.2 != want_screen || p.3 != want_map {
+            ctx.violation(
+                &format!("C14:paging:{}:{:?}", enc_class(enc), rx),
+                &format!("{} with 7FFD={:02x} loaded into receiver {:?}: paging state {:?}", enc_name(enc), s.port7ffd, rx, p),
+                case.clone(),
+            );
+            return None;
+        }
+    }
+    // RAM
+    let ram = all_ram(&e, m128);
+    let order: Vec<usize> = if m128 { (0..8).collect() } else { vec![5, 2, 0] };
+    for (page, bank) in order.iter().enumerate() {
+        let mut want_bank = s.banks[*bank].clone();
+        if !m128 && enc == Enc::Sna {
+            // the file carries PC in the two bytes below SP
+            let sp = s.regs.sp.wrapping_sub(2);
+            let w = (sp >> 14) as usize;
+            if [0usize, 5, 2, 0][w] == *bank && w != 0 {
+                want_bank[(sp & 0x3FFF) as usize] = s.regs.pc as u8;
+                want_bank[(sp.wrapping_add(1) & 0x3FFF) as usize] = (s.regs.pc >> 8) as u8;
+            }
+        }
+        if ram[page] != want_bank {
+            let o = (0..16384).find(|o| ram[page][*o] != want_bank[*o]).unwrap();
+            ctx.violation(
+                &format!("C14:memory:{}:{}", enc_class(enc), mname),
+                &format!("{} into {:?}: RAM bank {} offset {:04x} is {:02x}, file says {:02x}", enc_name(enc), rx, bank, o, ram[page][o], want_bank[o]),
+                case.clone(),
+            );
+            break;
+        }
+    }
+    // AY read-back (SZX on machines with an AY)
+    if m128 {
+        if let Enc::Szx { .. } = enc {
+            let sel_before = s.ay_selected;
+            e.verif_set_frame_clocks(1000);
+            let first = rig::cpu_in(&mut e, OUTCODE, 0xFFFD);
+            if first != s.ay_regs[(sel_before & 15) as usize] {
+                ctx.violation(&format!("C14:ay:selected-register:{}", enc_class(enc)), &format!("{}: reading FFFD right after the load gives {:02x}, selected register {} holds {:02x}", enc_name(enc), first, sel_before, s.ay_regs[(sel_before & 15) as usize]), case.clone());
+            }
+            let rb = ay_readback(&mut e);
+            if rb[..] != s.ay_regs[..] {
+                ctx.violation(&format!("C14:ay:register-readback:{}", enc_class(enc)), &format!("{}: AY registers read back {:02x?}, file says {:02x?}", enc_name(enc), rb, s.ay_regs), case.clone());
+            }
+            rig::cpu_out(&mut e, OUTCODE, 0xFFFD, sel_before);
+            // restore the registers and the two code bytes our port traffic changed
+            rig::set_regs(e.verif_cpu(), &expected_regs(s, enc));
+            let off = (OUTCODE & 0x3FFF) as usize;
+            rig::poke(&mut e, OUTCODE, &s.banks[2][off..off + 2]);
+        }
+    }
+    Some(e)
+}
+
+/// display + run digest: two frames of the idle program, then the picture must be the decode of
+/// the displayed bank; returns a digest of registers, RAM, both frame buffers
+fn run_and_digest(ctx: &Ctx, e: &mut Emu, m128: bool, s: &MState, case: &serde_json::Value, enc: Enc) -> u64 {
+    // run to the third frame boundary from here (the file formats do not all carry the frame phase)
+    let f0 = e.verif_total_frames();
+    let mut guard = 0;
+    while e.verif_total_frames() < f0 + 3 && guard < 200_000 {
+        rig::step(e);
+        guard += 1;
+    }
+    let shown = if m128 && s.port7ffd & 8 != 0 { 7 } else { 5 };
+    let mem = &s.banks[shown][..6912];
+    let pix = &rig::canvas(e).pix;
+    let d0 = decode_screen(mem, false);
+    let d1 = decode_screen(mem, true);
+    if pix[..] != d0[..] && pix[..] != d1[..] {
+        let i = (0..pix.len()).find(|i| pix[*i] != d0[*i]).unwrap_or(0);
+        ctx.violation(
+            &format!("C14:display:{}:{}", enc_class(enc), if m128 { "128k" } else { "48k" }),
+            &format!("{}: after the load the picture is not the decode of the file's screen (bank {}): pixel ({},{})", enc_name(enc), shown, i % 256, i / 256),
+            case.clone(),
+        );
+    }
+    let v = rig::regs_view(e.verif_cpu());
+    let mut h = fnv(format!("{:?}", [v.af, v.bc, v.de, v.hl, v.af_, v.bc_, v.de_, v.hl_, v.ix, v.iy, v.sp, v.pc, v.i as u16, v.im as u16, v.iff2 as u16]).as_bytes());
+    let mut ram = all_ram(e, m128);
+    if !m128 {
+        // a 48K SNA carries PC in the two bytes below SP; they are part of that format's RAM image
+        let sp = s.regs.sp.wrapping_sub(2);
+        for a in [sp, sp.wrapping_add(1)] {
+            let w = (a >> 14) as usize;
+            if w > 0 {
+                ram[w - 1][(a & 0x3FFF) as usize] = 0;
+            }
+        }
+    }
+    for b in ram {
+        h = fnv_mix(h, fnv(&b));
+    }
+    h = fnv_mix(h, fnv(&rig::canvas(e).pix));
+    h = fnv_mix(h, fnv(&rig::border(e).pix));
+    h
+}
+
+fn encodings(quick: bool, m128: bool) -> Vec<Enc> {
+    let _ = m128;
+    let mut v = vec![Enc::Sna, Enc::Szx { compressed: false, order: 0, unknown: false, minor: 4 }, Enc::Szx { compressed: true, order: 0, unknown: false, minor: 4 }, Enc::Szx { compressed: false, order: 3, unknown: true, minor: 5 }];
+    if !quick {
+        for order in 1..6u8 {
+            v.push(Enc::Szx { compressed: order % 2 == 0, order, unknown: false, minor: 4 });
+        }
+        v.push(Enc::Szx { compressed: true, order: 5, unknown: true, minor: 5 });
+    } else {
+        v.push(Enc::Szx { compressed: true, order: 4, unknown: false, minor: 4 });
+        v.push(Enc::Szx { compressed: false, order: 2, unknown: false, minor: 4 });
+    }
+    v
+}
+
+fn states_x_encodings(ctx: &Ctx, quick: bool) {
+    let nvar = if quick { 6 } else { 30 };
+    let rxs = [Rx::Fresh, Rx::Halted, Rx::MidPrefix, Rx::Locked, Rx::Other, Rx::Running];
+    let mut jobs = Vec::new();
+    for m128 in [false, true] {
+        for v in 0..nvar {
+            jobs.push((m128, v));
+        }
+    }
+    par_for(jobs.len(), 1, |j| {
+        let (m128, variant) = jobs[j];
+        let s = state(m128, variant);
+        let mut digests: Vec<(Enc, Rx, u64)> = Vec::new();
+        for enc in encodings(quick, m128) {
+            for (k, rx) in rxs.iter().enumerate() {
+                if quick && (k + variant) % 2 == 1 && *rx != Rx::Fresh {
+                    continue;
+                }
+                ctx.add_eval(1);
+                if let Some(mut e) = check_absolute(ctx, m128, variant, &s, enc, *rx) {
+                    let case = json_case(m128, variant, enc, *rx, "absolute");
+                    let d = run_and_digest(ctx, &mut e, m128, &s, &case, enc);
+                    digests.push((enc, *rx, d));
+                }
+            }
+        }
+        // differential: every encoding and every receiver must end in the same state
+        // (SNA does not carry the AY block; the idle program makes no sound either way)
+        if let Some((e0, r0, d0)) = digests.first().cloned() {
+            for (e1, r1, d1) in digests.iter() {
+                if *d1 != d0 {
+                    ctx.violation(
+                        &format!("C14:differential:{}-vs-{}:{}", enc_class(e0), enc_class(*e1), if m128 { "128k" } else { "48k" }),
+                        &format!("the same state loaded from {} into {:?} and from {} into {:?} gives machines that differ after running 3 frames (registers, RAM or frame buffers)", enc_name(e0), r0, enc_name(*e1), r1),
+                        json_case(m128, variant, *e1, *r1, "differential"),
+                    );
+                    break;
+                }
+            }
+            ctx.outcome(d0);
+        }
+    });
+}
+
+/// AY state must be audible: a file describing a sounding AY gives sound, equal in strength to a
+/// machine that had the same registers written through the ports
+fn audible_ay(ctx: &Ctx) {
+    let mut s = state(true, 1);
+    s.ay_regs = [0x40, 0x00, 0x80, 0x00, 0x20, 0x01, 0x05, 0x38, 0x0F, 0x0C, 0x08, 0x00, 0x10, 0x00, 0x00, 0x00];
+    let rms = |e: &mut Emu| -> f64 {
+        rig::drain_audio(e);
+        let mut acc = 0.0f64;
+        let mut n = 0usize;
+        for _ in 0..4 {
+            let _ = e.emulate_frames(Duration::from_secs(100));
+            let a = rig::drain_audio(e);
+            let mean: f64 = a.iter().map(|x| x.0 as f64).sum::<f64>() / a.len().max(1) as f64;
+            for x in a.iter() {
+                acc += (x.0 as f64 - mean) * (x.0 as f64 - mean);
+                n += 1;
+            }
+        }
+        (acc / n.max(1) as f64).sqrt()
+    };
+    let mk = || {
+        let mut o = Opts::k128();
+        o.sound = true;
+        o.ay = true;
+        rig::emu(&o)
+    };
+    // reference: registers written through the ports
+    let mut r = mk();
+    r.set_debug_interface(rig::VDebug::always());
+    rig::poke(&mut r, IDLE, &[0xF3, 0x18, 0xFE]);
+    for (i, v) in s.ay_regs.iter().enumerate().take(14) {
+        rig::cpu_out(&mut r, OUTCODE, 0xFFFD, i as u8);
+        rig::cpu_out(&mut r, OUTCODE, 0xBFFD, *v);
+    }
+    r.verif_cpu().regs.set_pc(IDLE);
+    let mut r2 = r;
+    r2.set_debug_interface(rig::VDebug::at(&[]));
+    let want = rms(&mut r2);
+    for enc in [Enc::Szx { compressed: false, order: 0, unknown: false, minor: 4 }, Enc::Szx { compressed: true, order: 4, unknown: false, minor: 4 }] {
+        let mut e = mk();
+        if load(&mut e, enc, encode(&s, enc, false)) != Ok(Ok(())) {
+            continue;
+        }
+        let got = rms(&mut e);
+        ctx.add_eval(1);
+        if want > 1e-4 && (got < want * 0.5 || got > want * 2.0) {
+            ctx.violation(
+                &format!("C14:ay:audible-state:{}", enc_class(enc)),
+                &format!("{} describing a sounding AY (tones on A/B/C, volumes 15/12/8): output RMS after the load is {:.5}, a machine with the same registers written through the ports gives {:.5}", enc_name(enc), got, want),
+                json!({"kind":"ay-audible","encoding":enc_name(enc)}),
+            );
+        }
+        ctx.outcome((got * 1e5) as u64);
+    }
+}
+
+/// HALTED and EILAST flags of SZX
+fn halted_and_eilast(ctx: &Ctx) {
+    for m128 in [false, true] {
+        for pc_after_halt in [true, false] {
+            // program: X-1: HALT ; X: INC A ; X+1: INC B ; X+2: JR $ ; interrupts on, IM 1
+            let x: u16 = 0x9001;
+            let mut s = state(m128, 2);
+            s.banks[2][0x1000..0x1005].copy_from_slice(&[0x76, 0x3C, 0x04, 0x18, 0xFE]);
+            s.regs.pc = if pc_after_halt { x } else { x - 1 };
+            s.regs.iff1 = true;
+            s.regs.iff2 = true;
+            s.regs.im = 1;
+            s.regs.af = 0x1000;
+            s.regs.bc = 0x2000;
+            s.cycles = 40000;
+            let enc = Enc::Szx { compressed: false, order: 0, unknown: false, minor: 4 };
+            let mut e = machine(m128);
+            if load(&mut e, enc, encode(&s, enc, true)) != Ok(Ok(())) {
+                ctx.violation("C14:halted:load-failed", "SZX with the HALTED flag does not load", json!({"kind":"halted","m128":m128}));
+                continue;
+            }
+            ctx.add_eval(1);
+            // step until the interrupt is accepted (IFF1 drops) or a frame and a half has passed
+            let mut visible = None;
+            let f0 = e.verif_total_frames();
+            let mut pushed = None;
+            for _ in 0..40000 {
+                rig::step(&mut e);
+                let v = rig::regs_view(e.verif_cpu());
+                if !v.iff1 {
+                    let sp = v.sp;
+                    // the ROM handler may have pushed more: the return address is the first word pushed (SP0-2)
+                    let a = s.regs.sp.wrapping_sub(2);
+                    pushed = Some(e.peek(a) as u16 | (e.peek(a.wrapping_add(1)) as u16) << 8);
+                    let _ = sp;
+                    break;
+                }
+                if v.af >> 8 != 0x10 || v.bc >> 8 != 0x20 {
+                    visible = Some((v.af, v.bc, v.pc));
+                    break;
+                }
+                if e.verif_total_frames() > f0 + 2 {
+                    break;
+                }
+            }
+            let conv = if pc_after_halt { "pc-after-halt" } else { "pc-on-halt" };
+            if let Some((af, bc, pc)) = visible {
+                if pc_after_halt {
+                    ctx.violation(
+                        &format!("C14:halted:executes-instructions:{}", if m128 { "128k" } else { "48k" }),
+                        &format!("SZX with HALTED set and PC={:04x} (HALT at {:04x}): the machine executed instructions before any interrupt (AF={:04x} BC={:04x} PC={:04x})", s.regs.pc, x - 1, af, bc, pc),
+                        json!({"kind":"halted","m128":m128,"convention":conv}),
+                    );
+                }
+                // with PC on the HALT itself both conventions agree that nothing visible may run
+                else {
+                    ctx.violation(
+                        &format!("C14:halted:executes-instructions-pc-on-halt:{}", if m128 { "128k" } else { "48k" }),
+                        &format!("SZX with HALTED set and PC on the HALT opcode {:04x}: instructions executed before any interrupt (AF={:04x} BC={:04x})", s.regs.pc, af, bc),
+                        json!({"kind":"halted","m128":m128,"convention":conv}),
+                    );
+                }
+            } else if let Some(p) = pushed {
+                let ok = p == s.regs.pc || p == s.regs.pc.wrapping_add(1);
+                if !ok {
+                    ctx.violation(
+                        &format!("C14:halted:pushed-address:{}", conv),
+                        &format!("SZX HALTED with PC={:04x}: the interrupt pushed {:04x} (accepted: PC or PC+1)", s.regs.pc, p),
+                        json!({"kind":"halted","m128":m128,"convention":conv}),
+                    );
+                }
+                ctx.outcome(p as u64);
+            }
+        }
+        // EILAST: no interrupt at the first boundary
+        let mut s = state(m128, 3);
+        s.regs.iff1 = true;
+        s.regs.iff2 = true;
+        s.regs.im = 1;
+        s.eilast = true;
+        s.cycles = 4;
+        s.banks[2][0x1000..0x1003].copy_from_slice(&[0x00, 0x18, 0xFE]);
+        let enc = Enc::Szx { compressed: false, order: 0, unknown: false, minor: 4 };
+        for eilast in [true, false] {
+            s.eilast = eilast;
+            let mut e = machine(m128);
+            if load(&mut e, enc, encode(&s, enc, false)) != Ok(Ok(())) {
+                continue;
+            }
+            ctx.add_eval(1);
+            let fc = e.verif_frame_clocks();
+            if fc != 4 {
+                // dwCyclesStart not honoured: the INT window test is moot; place the clock
+                e.verif_set_frame_clocks(4);
+            }
+            rig::step(&mut e);
+            let v = rig::regs_view(e.verif_cpu());
+            let accepted = !v.iff1;
+            if accepted == eilast {
+                ctx.violation(
+                    &format!("C14:eilast:{}", if eilast { "interrupt-accepted-right-after-EI" } else { "interrupt-not-accepted" }),
+                    &format!("SZX with EILAST={} and INT active at the first boundary: interrupt accepted = {}", eilast, accepted),
+                    json!({"kind":"eilast","m128":m128,"eilast":eilast}),
+                );
+            }
+        }
+    }
+}
+
+/// a file for the other model must be rejected (or represented correctly), and the receiver keeps running
+fn model_mismatch(ctx: &Ctx) {
+    for file128 in [false, true] {
+        let emu128 = !file128;
+        let s = state(file128, 1);
+        for enc in [Enc::Sna, Enc::Szx { compressed: false, order: 0, unknown: false, minor: 4 }, Enc::Szx { compressed: true, order: 0, unknown: false, minor: 4 }] {
+            let mut e = machine(emu128);
+            rig::poke(&mut e, IDLE, &[0xF3, 0x18, 0xFE]);
+            e.verif_cpu().regs.set_pc(IDLE);
+            let res = load(&mut e, enc, encode(&s, enc, false));
+            ctx.add_eval(1);
+            let dir = if file128 { "128k-file-on-48k-machine" } else { "48k-file-on-128k-machine" };
+            let case = json!({"kind":"mismatch","file128":file128,"encoding":enc_name(enc)});
+            match res {
+                Err(p) => {
+                    ctx.violation(&format!("C14:model-mismatch:panic:{}:{}", enc_class(enc), dir), &format!("{} ({}) panicked: {}", enc_name(enc), dir, p), case);
+                    continue;
+                }
+                Ok(Err(_)) => {}
+                Ok(Ok(())) => {
+                    // accepted: then the CPU-visible memory must be what the file says
+                    let mut ok = true;
+                    for a in [0x4000u16, 0x5000, 0x8000, 0x9000, 0xC000, 0xFFFF] {
+                        if Some(e.peek(a)) != s.peek(a) {
+                            ok = false;
+                        }
+                    }
+                    if !ok {
+                        ctx.violation(
+                            &format!("C14:model-mismatch:applied-with-wrong-layout:{}:{}", enc_class(enc), dir),
+                            &format!("{} ({}) was accepted but the CPU-visible memory is not what the file describes", enc_name(enc), dir),
+                            case,
+                        );
+                    }
+                }
+            }
+            // still able to run
+            let r = std::panic::catch_unwind(std::panic::AssertUnwindSafe(|| {
+                for _ in 0..30000 {
+                    rig::step(&mut e);
+                }
+            }));
+            if r.is_err() {
+                ctx.violation(&format!("C14:model-mismatch:cannot-run-afterwards:{}", dir), "emulation panics after the rejected/accepted load", json!({"kind":"mismatch","file128":file128}));
+            }
+        }
+    }
+}
+
+fn scr_files(ctx: &Ctx) {
+    for m128 in [false, true] {
+        for k in 0..4usize {
+            for rx in [Rx::Fresh, Rx::Halted, Rx::MidPrefix, Rx::Other] {
+                let content: Vec<u8> = (0..6912).map(|a| if a < 6144 { ((a * 17 + k * 31) % 256) as u8 } else { ((a * 29 + k) % 128) as u8 }).collect();
+                let mut e = receiver(m128, rx);
+                let r = std::panic::catch_unwind(std::panic::AssertUnwindSafe(|| e.load_screen(Screen::Scr(VAsset::new(scr(&content))))));
+                ctx.add_eval(1);
+                let case = json!({"kind":"scr","m128":m128,"k":k,"receiver":format!("{:?}", rx)});
+                if !matches!(r, Ok(Ok(()))) {
+                    ctx.violation("C14:scr:load-failed", &format!("well-formed SCR rejected or panicked into receiver {:?}", rx), case);
+                    continue;
+                }
+                let shown_bank = if m128 {
+                    if e.verif_paging().0 & 8 != 0 {
+                        7
+                    } else {
+                        5
+                    }
+                } else {
+                    0
+                };
+                if e.verif_ram_bank(shown_bank)[..6912] != content[..] {
+                    ctx.violation("C14:scr:memory", "display memory does not hold the SCR bytes", case.clone());
+                }
+                e.set_debug_interface(rig::VDebug::at(&[]));
+                for _ in 0..3 {
+                    let _ = e.emulate_frames(Duration::from_secs(100));
+                }
+                let pix = &rig::canvas(&e).pix;
+                if e.verif_ram_bank(shown_bank)[..6912] != content[..] {
+                    ctx.violation(&format!("C14:scr:memory-changed-while-showing:{:?}", rx), &format!("receiver {:?}: the display memory changed during the 3 frames after load_screen", rx), case.clone());
+                } else if pix[..] != decode_screen(&content, false)[..] && pix[..] != decode_screen(&content, true)[..] {
+                    ctx.violation(&format!("C14:scr:picture:{:?}", rx), &format!("receiver {:?}: the picture after load_screen is not the decode of the SCR file", rx), case);
+                }
+                ctx.outcome(fnv(pix) ^ k as u64);
+            }
+        }
+    }
+}
+
+pub fn run(tier: Tier, seed: u64, replay: Option<String>) -> i32 {
+    let ctx = Ctx::new("C14", tier, seed, "exploration");
+    let quick = !tier.is_thorough();
+    if let Some(path) = replay {
+        let v: serde_json::Value = serde_json::from_slice(&rig::read_file(&path)).expect("replay json");
+        println!("replay: re-running the '{}' family of {}", v["case"]["kind"], v["case"]);
+        match v["case"]["kind"].as_str().unwrap_or("") {
+            "halted" | "eilast" => halted_and_eilast(&ctx),
+            "mismatch" => model_mismatch(&ctx),
+            "scr" => scr_files(&ctx),
+            "ay-audible" => audible_ay(&ctx),
+            _ => states_x_encodings(&ctx, true),
+        }
+        let n = ctx.violation_classes();
+        println!("replay: {} violation class(es) reproduced", n);
+        return (n > 0) as i32;
+    }
+    states_x_encodings(&ctx, quick);
+    audible_ay(&ctx);
+    halted_and_eilast(&ctx);
+    model_mismatch(&ctx);
+    scr_files(&ctx);
+    ctx.add_nontrivial(ctx.evaluations.load(std::sync::atomic::Ordering::Relaxed));
+    ctx.sample(json_case(true, 3, Enc::Szx { compressed: true, order: 4, unknown: false, minor: 4 }, Rx::Locked, "absolute"));
+    ctx.note("not_judged", json!("which of the two published conventions (PC on the HALT / after it) an SZX with HALTED uses; IFF1 and AY/hidden latches for SNA (not carried); mouse presence is checked only through SZX"));
+    ctx.finish(
+        "abstract states (registers incl. alternates, IM, I/R boundary values, border, six paging values incl. shadow screen and lock, position-coded RAM in all banks, pictures in both screens, AY register file) written by the spec-based writers as SNA, SZX stored, SZX zlib, SZX in 6 chunk orders, SZX with unknown chunks interleaved, v1.4/1.5; loaded into six receivers (fresh, halted, mid FD prefix, paging locked, everything different incl. AY, ROM running mid-frame); absolute oracle: registers, IFFs, IM, HALT/prefix/EI latches cleared, border, paging latch+lock+map, every RAM bank, AY selected register and all 16 registers read back through the ports, picture after 3 frames = decode of the file's displayed screen; differential: all encodings x receivers of one state end in the same digest of registers, RAM and both frame buffers; audible AY state vs a port-written reference; HALTED (both PC conventions) and EILAST; files for the other model; SCR into four receivers. distinct_nontrivial = loads",
+        false,
+        &["writers in formats.rs follow the published SNA/SZX layouts, not the loaders"],
+    )
 }
